@@ -1815,7 +1815,7 @@ def run(ctx):
             "surrounding boxes have the same outcome probabilities; cut boxes and rejected boxes next to accepted ones count fully to hi_obs",
             density_test=f"sum over covering parallelotopes of mass/volume must agree within (1+tau)/(1-tau), tau={DENSITY_TAU} (second-order "
             "finite-difference error of the Jacobian), and with P(accept)/measure; retry branches carry [1/(1-r_lo), 1/(1-r_hi)]",
-            membership_eps="1e-7 x extent + polyhedral band (spheroid 0.4% of the largest semi-axis, disc r(1-cos(pi/128)), view cone 0.3% of the distance)",
+            membership_eps="1e-7 x extent + polyhedral band (spheroid 0.48% of the largest semi-axis, disc r(1-cos(pi/128)), view cone 0.3% of the distance)",
             curvature_slack=CURV_SLACK,
         ),
     )
